@@ -557,8 +557,15 @@ VIEW_WRAPPERS = {"Quantity", "asarray", "asanyarray", "ascontiguousarray", "atle
                  "transpose", "view", "diagonal", "getattr"}
 
 
-def shared_value_expr(n, shared_locals) -> bool:
-    """expression that denotes (a view of / a wrapper around) an object owned by someone else"""
+def shared_value_expr(n, shared_locals, callbacks=()) -> bool:
+    """expression that denotes (a view of / a wrapper around) an object owned by someone else.  `callbacks`: parameters of the
+    enclosing function; the result of calling one of them (a resolver handed in by the caller) belongs to whoever owns it."""
+    if isinstance(n, ast.IfExp):
+        return shared_value_expr(n.body, shared_locals, callbacks) or shared_value_expr(n.orelse, shared_locals, callbacks)
+    if isinstance(n, ast.BoolOp):
+        return any(shared_value_expr(v, shared_locals, callbacks) for v in n.values)
+    if isinstance(n, ast.Call) and isinstance(n.func, ast.Name) and n.func.id in callbacks:
+        return True
     if isinstance(n, ast.Attribute):
         if n.attr in ("T", "real", "imag", "magnitude", "m", "values"):
             return shared_value_expr(n.value, shared_locals)
@@ -590,7 +597,7 @@ def inplace_on_shared(mod: Mod):
         for st in order:
             if isinstance(st, ast.Assign) and len(st.targets) == 1 and isinstance(st.targets[0], ast.Name):
                 tgt = st.targets[0].id
-                if shared_value_expr(st.value, set(shared)) and not isinstance(st.value, ast.Name):
+                if shared_value_expr(st.value, set(shared), params) and not isinstance(st.value, ast.Name):
                     shared[tgt] = src(st.value)[:60]
                 elif isinstance(st.value, ast.Name) and st.value.id in shared:
                     shared[tgt] = shared[st.value.id]
@@ -600,7 +607,7 @@ def inplace_on_shared(mod: Mod):
                     and isinstance(st.targets[0].value, ast.Name) and st.targets[0].value.id not in shared:
                 # a slot of a local container: it holds (not copies) whatever is stored into it
                 slot = (st.targets[0].value.id, src(st.targets[0].slice))
-                if shared_value_expr(st.value, set(shared)):
+                if shared_value_expr(st.value, set(shared), params):
                     slots[slot] = src(st.value)[:60]
                 else:
                     slots.pop(slot, None)
